@@ -11,7 +11,14 @@ PROP_MODULES = {
     'C04': ['obligations.cache_ops'],
     'C08': ['obligations.cache_ops'],
     'C09': ['obligations.cache_ops'],
+    'C10': ['obligations.queue_ops', 'obligations.e2_jobs'],
+    'C01': ['obligations.e2_jobs', 'obligations.cache_ops', 'obligations.queue_ops'],
+    'C02': ['obligations.e2_jobs', 'obligations.cache_ops'],
+    'C13': ['obligations.e2_jobs'],
+    'C16': ['obligations.e2_jobs'],
 }
+for _p in ('C04', 'C08'):
+    PROP_MODULES[_p] = PROP_MODULES[_p] + ['obligations.queue_ops']
 
 
 def jobs_for(prop, tier):
@@ -23,6 +30,8 @@ def jobs_for(prop, tier):
                 j = dict(j)
                 j.setdefault('module', m)
                 j.setdefault('engine', 'E1')
+                if j['engine'] != 'E1':
+                    j['twin'] = False
                 j.setdefault('budget_s', 300 if tier == 'quick' else 1500)
                 j.setdefault('twin', True)
                 out.append(j)
